@@ -53,10 +53,80 @@ def build_single(ctx, W, d, p, ops):
     return S, plan
 
 
+def run_fixture(ctx, cfg, f):
+    """a trajectory file shipped with the repository: the parsed observation must equal the reference reading of the
+    file; a copy cut short by a crashed writer must be rejected or equal; a read fault must surface"""
+    from . import fixtures
+    fx = fixtures.load_trajectory(cfg.draw(len(fixtures.TRAJECTORIES)))
+    if "unsupported" in fx:
+        ctx.probes["fixture_unsupported"] += 1
+        raise Skip()
+    ctx.profile = "shipped-trajectory"
+    ctx.probes["fixture_trajectory"] += 1
+    multi = fx["agents"] is not None
+    try:
+        try:
+            d = C.parse_domain(ctx, fx["dom_text"], "fx-domain.pddl", enable_disjunctions=True)
+        except Exception:
+            # the trajectory parser only needs the vocabulary; the repository's own tests parse some of these domains
+            # with partial_parsing=True (action bodies outside the supported fragment)
+            d = C.parse_domain(ctx, fx["dom_text"], "fx-domain.pddl", partial_parsing=True)
+            ctx.probes["fixture_domain_partial_parse"] += 1
+        p = C.parse_problem(ctx, fx["prob_text"], d, "fx-problem.pddl") if fx["prob_text"] else None
+    except Exception:
+        ctx.probes["fixture_unparsable"] += 1
+        raise Skip()
+    path = ctx.rundir / "shipped.trajectory"
+    data = fx["traj_text"].encode("utf-8")
+    want_states, want_steps = fx["states"], fx["steps"]
+    ctx.log("fixture", fx["name"])
+    ctx.sample = {"shipped_trajectory": fx["name"], "steps": len(want_steps), "agents": fx["agents"]}
+    ctx.nontrivial = True
+    mode = f.draw(4)
+    if mode == 0:  # torn copy
+        k = f.draw(len(data))
+        fs.write_real_bytes(path, data[:k])
+        ctx.faults["torn_copy"] += 1
+        for with_problem in ([True, False] if p is not None else [False]):
+            try:
+                obs = L().TrajectoryParser(d, p if with_problem else None).parse_trajectory(
+                    path, executing_agents=fx["agents"])
+            except Exception:
+                ctx.probes["torn_trajectory_rejected"] += 1
+                continue
+            try:
+                compare_obs(ctx, obs, multi, want_states, want_steps, None, "TrajectoryParser.parse_trajectory")
+            except Violation as v:
+                raise Violation("C10/torn-trajectory-accepted-as-different", v.site,
+                                f"{fx['name']} cut after {k} of {len(data)} bytes parsed without error: {v.detail}")
+    fs.write_real_bytes(path, data)
+    if mode == 1:
+        exc = [PermissionError(errno.EACCES, "sim"), OSError(errno.EIO, "sim")][f.draw(2)]
+        fs.arm_read(["open", "read"][f.draw(2)], exc)
+        ctx.faults["parse_read_fault"] += 1
+        try:
+            L().TrajectoryParser(d, p).parse_trajectory(path, executing_agents=fx["agents"])
+        except OSError:
+            pass
+        else:
+            raise Violation("C10/read-fault-swallowed", "TrajectoryParser.parse_trajectory", "returned despite a read error")
+        fs.disarm()
+    for with_problem in ([True, False] if p is not None else [False]):
+        site = f"TrajectoryParser({'domain, problem' if with_problem else 'domain'}).parse_trajectory"
+        try:
+            obs = L().TrajectoryParser(d, p if with_problem else None).parse_trajectory(path, executing_agents=fx["agents"])
+        except Exception as e:
+            raise Violation("C10/shipped-trajectory-rejected", site, f"{fx['name']}: {type(e).__name__}: {e}")
+        compare_obs(ctx, obs, multi, want_states, want_steps, None, site)
+    ctx.steps += len(want_steps)
+
+
 def run(ctx):
     cfg = ctx.s("cfg")
     ops = ctx.s("ops")
     f = ctx.s("fs")
+    if cfg.draw(200 if ctx.tier == "quick" else 50) == 0:
+        return run_fixture(ctx, cfg, f)
     multi = cfg.chance(1, 3)
     feat = C.draw_features(ctx)
     if multi:
